@@ -623,6 +623,9 @@ impl MqttClientImpl {
 
         client_impl.reconnect_options.normalize();
 
+        // the first wait is the (normalized) base period, also when base and max had to be swapped
+        client_impl.next_reconnect_period = client_impl.reconnect_options.base_reconnect_period;
+
         client_impl
     }
 
